@@ -429,11 +429,13 @@ def dependencies():
             finally:
                 Probe.stack.pop()
     for k in ALL_KEYS:
-        rel = Probe(fd, verbose=False, lmax=2)
-        try:
-            rel[k]
-        except Exception:  # noqa: BLE001
-            pass
+        # both tetrad choices and both vacuum settings read different keys
+        for kw in (dict(), dict(tetrad="fluid"), dict(vacuum=True)):
+            rel = Probe(fd, verbose=False, lmax=2, **kw)
+            try:
+                rel[k]
+            except Exception:  # noqa: BLE001
+                pass
         _DEPS.setdefault(k, set())
     return _DEPS
 
